@@ -18,11 +18,21 @@ import (
 // profileOf: the action profile a property is proved under (DESIGN 2.2).
 var profileOf = map[string]string{"C06": "pure", "C10": "pure", "C12": "pure", "C18": "pure", "C04": "pure", "C05": "pure", "C08": "pure"}
 
+// boundedOf: bounded stand-ins (labelled bounded, never counted as proved) that
+// run the real code on every input of a stated finite space.
+var boundedOf = map[string][2]string{
+	"C01": {"match", "^TestBoundedC01Fits$"},
+	"C02": {"match", "^TestBoundedC02Embeddings$"},
+}
+
 type knownFinding struct {
 	Property   string `json:"property"`
 	Obligation string `json:"obligation"`
 	What       string `json:"what"`
 	Witness    string `json:"witness,omitempty"`
+	WitnessPkg string `json:"witness_pkg,omitempty"`
+	WitnessRun string `json:"witness_run,omitempty"`
+	ReplayOnly bool   `json:"replay_only,omitempty"`
 }
 
 type knownFile struct {
@@ -119,14 +129,19 @@ func cmdCheck(args []string) int {
 		vc.KnownFailing[kf.Obligation] = kf.Property
 	}
 	keys := unitsFor(cs, *prop)
-	if len(keys) == 0 {
+	_, hasBounded := boundedOf[*prop]
+	if len(keys) == 0 && !hasBounded {
 		fmt.Fprintf(os.Stderr, "no function under contract carries a clause for %s\n", *prop)
 		return 2
 	}
-	P, err := vc.Load(*repo, pkgsOf(keys))
-	if err != nil {
-		fmt.Fprintln(os.Stderr, err)
-		return 2
+	var P *vc.Program
+	if len(keys) > 0 {
+		var err error
+		P, err = vc.Load(*repo, pkgsOf(keys))
+		if err != nil {
+			fmt.Fprintln(os.Stderr, err)
+			return 2
+		}
 	}
 	loadS := time.Since(t0).Seconds()
 	profile := profileOf[*prop]
@@ -180,6 +195,15 @@ func cmdCheck(args []string) int {
 		for _, c := range u.Callees {
 			if !done[c] {
 				work = append(work, c)
+			}
+		}
+	}
+	if P != nil {
+		for _, af := range P.Contracts.AtomicFields {
+			if hasProp(af.Props, *prop) {
+				u := vc.AtomicFieldUnit(P, af)
+				units = append(units, u)
+				all = append(all, u.Obligs...)
 			}
 		}
 	}
@@ -274,6 +298,45 @@ func cmdCheck(args []string) int {
 		os.WriteFile(path, b, 0o644)
 		fmt.Printf("VIOLATION property=%s replay=%s obligation=%s%s\n", *prop, path, r.O.Name, suffix)
 	}
+	// known findings that exist only as replays (no contract expresses them): re-run their witnesses
+	var replayNotes []string
+	for _, kf := range known.Findings {
+		if kf.Property != *prop || !kf.ReplayOnly || kf.WitnessPkg == "" {
+			continue
+		}
+		pass, _ := runWitness(*verif, *repo, kf.WitnessPkg, kf.WitnessRun)
+		if !pass {
+			nKnown++
+			fmt.Printf("KNOWN-FINDING: property=%s %s: %s\n", *prop, kf.Obligation, kf.What)
+			replayNotes = append(replayNotes, kf.Obligation+": witness still fails on the real code")
+		} else {
+			fmt.Printf("note: known finding %s no longer reproduces on this tree (stale entry)\n", kf.Obligation)
+			replayNotes = append(replayNotes, kf.Obligation+": witness passes on this tree (stale)")
+		}
+	}
+	// bounded stand-in (if any)
+	var boundedStats map[string]interface{}
+	if b, ok := boundedOf[*prop]; ok {
+		scratch, _ := os.MkdirTemp("", "govc-bounded")
+		outf := filepath.Join(scratch, "result.json")
+		pass, out := runOverlay(*verif, *repo, "bounded", b[0], b[1], []string{"VERIF_TIER=" + *tier, fmt.Sprintf("VERIF_SEED=%d", seed), "VERIF_BOUNDED_OUT=" + outf}, "3000s")
+		if rb, err := os.ReadFile(outf); err == nil {
+			json.Unmarshal(rb, &boundedStats)
+		}
+		os.RemoveAll(scratch)
+		if boundedStats == nil {
+			boundedStats = map[string]interface{}{"error": trunc(out, 2000)}
+		}
+		if !pass {
+			violations++
+			path := filepath.Join(replayDir, *prop+"-bounded.json")
+			rp := map[string]interface{}{"property": *prop, "obligation": "bounded:" + b[1], "kind": "bounded stand-in on the real code", "reproduced": true,
+				"failing_inputs": boundedStats["failures"], "replay_test": map[string]string{"package": b[0], "run": b[1], "files": filepath.Join(*verif, "bounded", b[0])}, "output": trunc(out, 4000)}
+			rb, _ := json.MarshalIndent(rp, "", " ")
+			os.WriteFile(path, rb, 0o644)
+			fmt.Printf("VIOLATION property=%s replay=%s obligation=bounded:%s\n", *prop, path, b[1])
+		}
+	}
 	wall := time.Since(t0).Seconds()
 	// evidence
 	var fnames []string
@@ -300,11 +363,34 @@ func cmdCheck(args []string) int {
 		"vacuity_checks": nVac, "known_findings_reported": nKnown, "profile": profile, "per_obligation_timeout_s": timeout,
 		"explanation": "every obligation generated from /repo's current source for the functions listed (contract clauses tagged " + *prop + ", supporting loop invariants, call-site preconditions, generated safety conditions) was sent to z3 5.1.0 / z3 4.8.12 / cvc5 1.0; 'discharged' counts obligations a solver answered unsat for",
 	}
+	if len(replayNotes) > 0 {
+		cov["known_finding_replays"] = replayNotes
+	}
 	if slowest != nil {
 		cov["slowest_obligation"] = map[string]interface{}{"name": slowest.O.Name, "seconds": round2(slowest.Secs)}
 	}
 	if nProved != nObl {
 		level = "other"
+	}
+	if boundedStats != nil {
+		cov["bounded_stand_in"] = boundedStats
+		cov["bounded_note"] = "BOUNDED: the real match.Match was run on every input of the space described in bounded_stand_in.bound and compared with an executable specification written from the property text; this part is exhaustive within that bound only and is not counted in obligations/discharged"
+		if ev, ok := boundedStats["evaluations"].(float64); ok {
+			cov["evaluations"] = int(ev)
+		}
+		if nt, ok := boundedStats["distinct_nontrivial"].(float64); ok {
+			cov["distinct_nontrivial"] = int(nt)
+		}
+		cov["rule"] = "bounded part: exhaustive enumeration of (pattern, message[, initial bindings]) over the stated alphabet; non-trivial = distinct (pattern, returned binding set) pairs (C01) / pairs with at least one embedding (C02)"
+		cov["exhaustive"] = true
+		if nObl == 0 {
+			level = "exploration"
+			if s, ok := boundedStats["samples"].([]interface{}); ok && len(s) > 0 {
+				cov["samples"] = s
+			}
+		} else {
+			level = "other"
+		}
 	}
 	ev := map[string]interface{}{"property_id": *prop, "tier": *tier, "seed": seed, "level": level, "coverage": cov, "assumptions": assumptions,
 		"wall_s": round2(wall), "violations": violations}
